@@ -62,7 +62,7 @@ def c12_unit(c):
 
 
 PROPS = {
-    "C01": dict(units=["p1greedy", "p1dfs", "pos-bk", "pos-ns", "pos-sink"], n_units=dict(quick=1500, thorough=20000), trace_gen="C02", oracle="C01", relevant=rel({s: set() for s in list(range(0, 9)) + [15, 16]}),
+    "C01": dict(custom=["spline_step"], units=["p1greedy", "p1dfs", "pos-bk", "pos-ns", "pos-sink"], n_units=dict(quick=1500, thorough=20000), trace_gen="C02", oracle="C01", relevant=rel({s: set() for s in list(range(0, 9)) + [15, 16]}),
                 trace_env={"VH_DEEP": "1"}, n_trace=dict(quick=96, thorough=800), n_search=dict(quick=1500, thorough=40000)),
     "C02": dict(trace_gen="C02", oracle="C02",
                 relevant=rel({0: STRUCT | SIZE | {50}, 1: COMP, 2: STRUCT, 3: STRUCT, 5: STRUCT, 7: STRUCT | ROUTE, 8: STRUCT | ROUTE | SIZE, 9: {1, 2}}),
@@ -73,9 +73,9 @@ PROPS = {
                 units=["vbalance", "normalize", "ns"], n_units=dict(quick=1200, thorough=12000), unit_classify=c03_unit),
     "C04": dict(units=["pos-sink", "pos-valign", "pos-packright", "pos-ns"], n_units=dict(quick=400, thorough=6000), unit_classify=c04_unit, trace_gen="C04", oracle="C04", relevant=rel({5: POS, 6: XY | SIZE, 9: {1}}),
                 n_trace=dict(quick=160, thorough=1500), n_search=dict(quick=3000, thorough=60000)),
-    "C05": dict(trace_gen="C05", oracle="C05", relevant=rel({6: XY, 7: ROUTE | STRUCT, 8: ROUTE | STRUCT, 9: {1, 2}}),
+    "C05": dict(custom=["spline_step"], trace_gen="C05", oracle="C05", relevant=rel({6: XY, 7: ROUTE | STRUCT, 8: ROUTE | STRUCT, 9: {1, 2}}),
                 n_trace=dict(quick=200, thorough=2000), n_search=dict(quick=3000, thorough=60000)),
-    "C06": dict(trace_gen="C06", oracle="C06", relevant=rel({5: STRUCT | LAYER | POS, 6: XY, 7: ROUTE | STRUCT, 9: {1, 2}}),
+    "C06": dict(custom=["spline_step"], trace_gen="C06", oracle="C06", relevant=rel({5: STRUCT | LAYER | POS, 6: XY, 7: ROUTE | STRUCT, 9: {1, 2}}),
                 n_trace=dict(quick=160, thorough=1500), n_search=dict(quick=3000, thorough=60000)),
     "C07": dict(trace_gen="C07", oracle="C07", relevant=rel({**{s: ALLF | COMP for s in list(range(0, 10)) + [16]}, 13: {0}, 15: ALLF | {0}}),
                 trace_env={"VH_DEEP": "1"}, n_trace=dict(quick=96, thorough=800), n_search=dict(quick=1500, thorough=20000)),
@@ -221,6 +221,75 @@ def c20_step(run):
                 run.violation("the root finder breaks the property: " + r["problem"], {"kind": "roots", "property": "C20", "case": r}, True)
     if rep:
         run.known.append("property=C20 repeated-root: solve3 drops a repeated real root when rounding makes the discriminant slightly positive (%d of %d polynomials with a repeated root in this run)" % (rep, sum(1 for r in d["roots"] if r["repeated"])))
+
+
+def spline_step(run):
+    """spline routing through Layout: child processes under a wall-clock limit; the glue model (Model/Splines.v) against the
+    traced cases that return; the direct oracles of C05/C06 on the returned layouts"""
+    n = dict(quick=160, thorough=3000)[run.tier]
+    sdir = os.path.join(run.dir, "spline")
+    rc, out = sh([os.path.join(WORK, "vh"), "splinetrace", "-seed", str(run.seed), "-n", str(n), "-out", sdir], timeout=6000)
+    if rc != 0 or not os.path.exists(os.path.join(sdir, "index.json")):
+        run.violation("running spline routing failed: " + out[-600:], {"kind": "harness", "output": out[-3000:]}, False)
+        return
+    index = json.load(open(os.path.join(sdir, "index.json")))
+    listed = any(k["class"] == "spline-corridor" for k in run.load_known())
+    outcomes = {o: sum(1 for e in index if e["outcome"] == o) for o in ("ok", "panic", "hang")}
+    run.cov.setdefault("spline_routing", {})["outcomes"] = outcomes
+    run.cov["spline_routing"]["routed_edges"] = sum(e.get("routes", 0) for e in index)
+    run.cov["spline_routing"]["edges_through_FitSpline"] = sum(e.get("fitted", 0) for e in index)
+    run.cov["evaluations"] += len(index)
+    known = 0
+    for e in index:
+        if e["outcome"] == "ok":
+            continue
+        if listed and (e.get("long_edge") or e.get("zero_width")):
+            known += 1
+        elif run.prop == "C01":
+            run.violation("Layout with spline routing did not return: " + e.get("detail", "")[:300],
+                          {"kind": "input", "property": "C01", "case": e["case"], "messages": [e.get("detail", "")]}, True)
+    if known:
+        run.known.append("property=C01 spline-corridor: with EdgeRoutingSplines Layout panics or does not return when an edge spans more than one band or a node has zero width (%d of %d spline cases in this run: %d panic, %d no return within 4 s)"
+                         % (known, len(index), sum(1 for e in index if e["outcome"] == "panic" and (e.get("long_edge") or e.get("zero_width"))),
+                            sum(1 for e in index if e["outcome"] == "hang" and (e.get("long_edge") or e.get("zero_width")))))
+    if run.prop == "C01":
+        for e in index:
+            if e.get("error"):
+                run.violation("tracing a spline case failed: " + e["error"][:300], {"kind": "input", "property": "C01", "case": e["case"], "messages": [e["error"]]}, True)
+        return
+    # C05 / C06: oracles and correspondence
+    key = run.prop.lower()
+    shown = 0
+    for e in index:
+        if e.get(key) and shown < 3:
+            shown += 1
+            run.violation("; ".join(e[key])[:300], {"kind": "input", "property": run.prop, "case": e["case"], "messages": e[key]}, True)
+    from __main__ import coq_pool
+    import glob as _g
+    shards = sorted(_g.glob(os.path.join(sdir, "cases_*.v")))
+    res = coq_pool(shards, sdir)
+    relevant = run.spec.get("relevant", lambda code: True)
+    traced = 0
+    for sfile in shards:
+        rcq, outq = res[sfile]
+        m = re.search(r"M =\s*(.*?)\s*:\s*list \(nat \* list nat\)", outq, re.S)
+        m2 = re.search(r"S =\s*(.*?)\s*:\s*list \(nat \* list nat\)", outq, re.S)
+        if rcq != 0 or not m or not m2:
+            run.violation(f"the model could not be evaluated on {os.path.basename(sfile)}: " + outq[-600:], {"kind": "correspondence", "step": "coqc", "output": outq[-3000:]}, False)
+            continue
+        traced += sum(1 for e in index if e.get("shard") == shards.index(sfile))
+        for body, spline in ((m.group(1), False), (m2.group(1), True)):
+            for cm in re.finditer(r"\((\d+)%nat,\s*\[(.*?)\]\)", body, re.S):
+                idx = int(cm.group(1))
+                codes = [int(x) for x in re.findall(r"(\d+)%nat", cm.group(2))]
+                # 902: the inner control points of a spline are not dyadic; adding the component shift rounds
+                rel_codes = codes if spline else [c for c in codes if relevant(c) and c != 902]
+                if not rel_codes:
+                    continue
+                run.cov["correspondence_mismatches"] += 1
+                run.mismatch(index[idx]["case"], rel_codes)
+    run.cov["traces_validated_against_impl"] += traced
+    run.cov["spline_routing"]["traced_cases"] = traced
 
 
 def install_known(table):
